@@ -88,6 +88,7 @@ pub fn abandon_at() -> impl Strategy<Value = AbandonAt> {
         3 => (0usize..6).prop_map(AbandonAt::AfterChunks),
         3 => (0usize..4).prop_map(AbandonAt::MidFlight),
         2 => Just(AbandonAt::AfterFlush),
+        2 => Just(AbandonAt::AfterShutdown),
     ]
 }
 
@@ -114,7 +115,7 @@ pub fn link_spec(nkeys: usize, nblobs: usize, bad: bool) -> impl Strategy<Value 
             relative: false,
             algo: if oneshot { Algo::Sha256 } else { algo },
             oneshot,
-            pre_reads: if oneshot { vec![] } else if (b & 7) == 7 { vec![usize::MAX] } else { pre_reads },
+            pre_reads: if oneshot { vec![] } else if (b & 7) == 7 { vec![usize::MAX] } else if (b & 7) == 6 { vec![usize::MAX - 1] } else { pre_reads },
             declare: if oneshot { Declare::Exact } else { declare },
             integ: if oneshot { IntegDecl::None } else { integ },
             dotdot_via_symlink: false,
@@ -144,7 +145,7 @@ pub fn op(cfg: ProgCfg, nkeys: usize, nblobs: usize) -> BoxedStrategy<Op> {
             prop_oneof![3 => Just(XKind::Copy), 2 => Just(XKind::HardLink), 1 => Just(XKind::Reflink)],
             prop::bool::weighted(0.7),
             gen::by(nkeys, nblobs),
-            prop_oneof![4 => Just(Dest::Absent), 2 => Just(Dest::Existing), 1 => Just(Dest::OtherFs), 1 => Just(Dest::LongName), 1 => Just(Dest::WithSiblings)],
+            prop_oneof![4 => Just(Dest::Absent), 2 => Just(Dest::Existing), 1 => Just(Dest::OtherFs), 1 => Just(Dest::LongName), 1 => Just(Dest::WithSiblings), 1 => Just(Dest::LinkOfContent)],
         )
             .prop_map(|(kind, checked, by, dest)| Op::Extract { kind, checked, by, dest })
             .boxed(),
